@@ -340,6 +340,8 @@ func (s *muxerStream) handleMediaPlaylist(w http.ResponseWriter, r *http.Request
 						break
 					}
 
+					verifYield("muxer.wait")
+
 					s.cond.Wait()
 				}
 
@@ -382,6 +384,8 @@ func (s *muxerStream) handleMediaPlaylist(w http.ResponseWriter, r *http.Request
 			if s.hasContent() {
 				break
 			}
+
+			verifYield("muxer.wait")
 
 			s.cond.Wait()
 		}
@@ -705,6 +709,8 @@ func (s *muxerStream) rotateParts(
 					if s.nextPartID > capturePartID {
 						break
 					}
+
+					verifYield("muxer.wait")
 
 					s.cond.Wait()
 				}
